@@ -160,8 +160,7 @@ package tracer
 //@            evN, evKind, evLen, evEnv, builder.*, RequestBodyData.*, ResponseBodyData.*, RequestBodyEnd.*, ResponseBodyEnd.*, eventOffset.*, []Event, http.Request.*
 //@   ensures atomicBoolV[t.closed]
 
-//@ func GetDecompressor
-//@   modifies nothing
+// (GetDecompressor: see zz_tracer_verif.go)
 // a body is traced as an envelope stream exactly for Connect streaming and gRPC(-Web) content
 // types, and never when the whole body is content-encoded
 //@ func propertiesFromHeaders
